@@ -54,19 +54,53 @@ def run(cx: Cx):
 
 
 # ------------------------------------------------------------------------------------------------ R-EXH
-def _score_table(cx: Cx):
-    fn = cx.fn(SCORE)
-    sm = cx.prog.cls(BATCH + 'ScoreMode')
-    members = {k: v for k, v in cx.prog.enum_members(sm).items() if isinstance(v, int)}
-    cx.floor('ScoreMode members', len(members), 2)
-    rec, mode = Sym(fn.params[0]), Sym(fn.params[1])
-    table = {
+def _table(rec):
+    return {
         'MIN': [App('min', (rec,))], 'MAX': [App('max', (rec,))],
         # exact aggregates only: fmean / fsum convert to float first and lose integer scores above 2**53
         'MEAN': [App('.mean', (Sym('statistics'), rec))],
         'SUM': [App('sum', (rec,))],
         'VARIANCE': [App('.variance', (Sym('statistics'), rec))],
     }
+
+
+def _canon_call(v):
+    """`from statistics import mean; mean(x)` is `statistics.mean(x)`"""
+    if isinstance(v, App) and v.fn == 'call' and v.args and isinstance(v.args[0], Sym) and '.' in v.args[0].name and not v.kw:
+        mod_, _, f_ = v.args[0].name.rpartition('.')
+        return App('.' + f_, (Sym(mod_),) + tuple(v.args[1:]))
+    return v
+
+
+def _tabled_on_path(v, cond, members, rec, mode):
+    """The aggregate was chosen earlier on this path (a function value resolved once per call): `v` is the prescribed aggregate of
+    `rec` for every ScoreMode member the path condition admits, and the path admits no value outside ScoreMode.  None: the path
+    admits no mode at all (the direction assumed for this pass contradicts the arm taken)."""
+    table = _table(rec)
+    v = _canon_call(v)
+    admitted = 0
+    for name, val in members.items():
+        c = subst_formula(cond, {mode: Num(Fraction(val))})
+        if c == FFalse:
+            continue
+        kind = name.split('_', 1)[1] if '_' in name else name
+        if v not in table.get(kind, ()):
+            return False
+        admitted += 1
+    vals = sorted(members.values())
+    for out in (vals[0] - 1, vals[-1] + 1, vals[-1] + 2):
+        if subst_formula(cond, {mode: Num(Fraction(out))}) != FFalse:
+            return False
+    return True if admitted else None
+
+
+def _score_table(cx: Cx):
+    fn = cx.fn(SCORE)
+    sm = cx.prog.cls(BATCH + 'ScoreMode')
+    members = {k: v for k, v in cx.prog.enum_members(sm).items() if isinstance(v, int)}
+    cx.floor('ScoreMode members', len(members), 2)
+    rec, mode = Sym(fn.params[0]), Sym(fn.params[1])
+    table = _table(rec)
     paths = cx.walker.paths(fn, WalkOptions(unroll=0, callee_raises=False))
     for name, val in sorted(members.items(), key=lambda kv: kv[1]):
         hits = []
@@ -89,10 +123,7 @@ def _score_table(cx: Cx):
             continue
         p = hits[0]
         v = p.last.data.get('value') if p.end == 'return' else None
-        # `from statistics import mean; mean(x)` is `statistics.mean(x)`
-        if isinstance(v, App) and v.fn == 'call' and v.args and isinstance(v.args[0], Sym) and '.' in v.args[0].name and not v.kw:
-            mod_, _, f_ = v.args[0].name.rpartition('.')
-            v = App('.' + f_, (Sym(mod_),) + tuple(v.args[1:]))
+        v = _canon_call(v)
         if p.end == 'return' and v in want:
             cx.ok('R-EXH', f"ScoreMode.{name} -> {v!r}", where=cx.where(fn, p.last.line), function=fn.qualname)
         else:
@@ -209,6 +240,7 @@ def _selection(cx: Cx):
                         == [Num(Fraction(k + 1))] for k in range(len(iters))):
                     counters.append(cname)
             holders = [nm for nm, vv in env.items() if vv == Const(None)]
+            score_vals = {e.data.get('value') for e in evs if e.kind == 'store' and e.data.get('key') == Const('score')}
             for k, it_ev in enumerate(iters):
                 info = it_ev.data['info']
                 if info.get('kind') == 'iter' and info.get('var') is not None and strip_versions(sel.data.get('iter')) == RES and counters:
@@ -228,6 +260,13 @@ def _selection(cx: Cx):
                 n_iter += 1
                 want_score = App('call:' + SCORE, (Sub(res_k, Const('records')), mode))
                 st = [e for e in seg if e.kind == 'store' and e.data.get('store') == 'setitem' and e.data.get('key') == Const('score')]
+                if len(st) == 1 and strip_versions(st[0].data.get('target')) == res_k and st[0].data.get('value') != want_score:
+                    tb = _tabled_on_path(st[0].data.get('value'), p.cond, members, Sub(res_k, Const('records')), mode)
+                    if tb is None:
+                        n_iter -= 1
+                        break           # no mode takes this path
+                    if tb:
+                        want_score = st[0].data['value']
                 if not (len(st) == 1 and strip_versions(st[0].data.get('target')) == res_k and st[0].data.get('value') == want_score):
                     viol('R-GUARD', 'score-from-own-records-with-callers-mode',
                          f"grid_search must store result['score'] = _score_model_for_search(result['records'], mode) for every result; found "
@@ -251,7 +290,7 @@ def _selection(cx: Cx):
                 if target_var is None:
                     for e in evs:
                         if e.kind == 'assign' and e.loops and e.loops[0] == sel.node.lineno and isinstance(e.data.get('value'), App) \
-                                and e.data['value'].fn == 'call:' + SCORE and e.data.get('name') in env:
+                                and (e.data['value'].fn == 'call:' + SCORE or e.data['value'] in score_vals) and e.data.get('name') in env:
                             target_var = e.data['name']
                 if target_var is None:
                     # no iteration on this path updates: compare against every pre-loop candidate
